@@ -269,6 +269,9 @@ func (e *env) ident(name string) *sym {
 			top = p
 		}
 		for _, fr := range []*frame{e.f, top} {
+			if fr.fn == nil {
+				continue // a lemma has no function
+			}
 			for _, b := range fr.fn.Blocks {
 				for _, in := range b.Instrs {
 					if a, ok := in.(*ssa.Alloc); ok && a.Comment == name {
